@@ -200,6 +200,9 @@ func (_this *RulesEventReceiver) OnBigDecimalFloat(value *apd.Decimal) {
 		return
 	}
 
+	if value.Form == apd.Finite {
+		validateDecimalExponent(value.Exponent)
+	}
 	_this.context.NotifyNewObject(true)
 	_this.context.CurrentEntry.Rule.OnNonKeyableObject(&_this.context, DataTypeFloat)
 	_this.receiver.OnBigDecimalFloat(value)
@@ -242,6 +245,14 @@ func (_this *RulesEventReceiver) validateArrayAPICall(arrayType events.ArrayType
 	case events.ArrayTypeMedia:
 		panic(fmt.Errorf("BUG: %v is not allowed in the array API. Use the media API instead", arrayType))
 	default:
+	}
+}
+
+// Decimal exponents are stored as sign and 31-bit magnitude in CBE, so the
+// most negative 32-bit value cannot be carried.
+func validateDecimalExponent(exponent int32) {
+	if exponent == math.MinInt32 {
+		panic(fmt.Errorf("decimal float exponent %v is out of range", exponent))
 	}
 }
 
